@@ -491,8 +491,8 @@ def check_nondet_visit(model: Model, report: Report, r_order: Optional[str], r_d
                 problems += 1
             seen_cells.add("exceeded")
             continue
-        if exceeded:
-            fail(r_depth, "nondet-visit:guard-missing", "no JSONPathRecursionError although queued depth >= env.max_recursion_depth")
+        if not within:
+            fail(r_depth, "nondet-visit:guard-threshold", f"a path continues without JSONPathRecursionError although queued depth >= env.max_recursion_depth is possible on it (assumptions: {it.ctx.oct.describe(it.ctx.names)})")
             problems += 1
             continue
         seen_cells.add("within")
